@@ -18,7 +18,9 @@ U32BitTip blocks; block operands are list indices):
   bigs.getn <f|r> <n>               → nil | […] | panic
   tip.fromu32 <u> | tip.fromdata <start> <hex> | tip.set <k> <u> | tip.rev <k> | tips.rev | tip.show <k>
   tip.getn <k> <f|r> <n> | tip.iter <k> <f|r> <slen> <pos> <n> | tips.getn <f|r> <n>
-The configuration is the one regenerated from the source (`Nv.Gen.C09.cfg`).
+The configuration is the one regenerated from the source (`Nv.Gen.C09.cfg`). When a behaviour-selecting fact of it is
+`.unknown` the affected operations (`big.getn`, `big.iter`, `bigs.getn`; `tip.getn`) answer `unknown-cfg`: the oracle never
+defaults to a behaviour it was not told.
 -/
 open Nv Nv.C08 Nv.C09
 
@@ -115,7 +117,7 @@ def step (st : S) (line : String) : S × String :=
   match words line with
   | ["new"] => (init, "ok")
   | ["magic", m] => match parseInt? m with
-    | some m => if inI32 m then ({ st with magic := m }, "ok") else (st, "bad-op")
+    | some m => if inI32 m then ({ st with magic := m }, s!"magic={m}") else (st, "bad-op")
     | none => (st, "bad-op")
   | ["load", r, m] => match reg st r, parseMap? m with
     | some _, some v => (setReg st r v, "ok")
@@ -179,7 +181,8 @@ def step (st : S) (line : String) : S × String :=
       match parseDir s, parseInt? h with
       | some rev, some n =>
         if !inPos n || n > maxSlice then (st, "bad-op")
-        else if op == "bigs.getn" then (st, showGetN true (bigsGetN cfg st.magic rev st.bigs n))
+        else if op == "bigs.getn" then
+          (st, if cfg.offsetsKnown then showGetN true (bigsGetN cfg st.magic rev st.bigs n) else "unknown-cfg")
         else (st, showGetN false (tipsGetN cfg st.magic rev st.tips n))
       | _, _ => (st, "bad-op")
     else (st, "bad-op")
@@ -208,10 +211,10 @@ def step (st : S) (line : String) : S × String :=
     | some k, some rev, some n =>
       if !inPos n || n > maxSlice then (st, "bad-op")
       else if op == "big.getn" then match st.bigs[k]? with
-        | some b => (st, showGetN true (bigGetN cfg st.magic rev b n))
+        | some b => (st, if cfg.offsetsKnown then showGetN true (bigGetN cfg st.magic rev b n) else "unknown-cfg")
         | none => (st, "bad-op")
       else if op == "tip.getn" then match st.tips[k]? with
-        | some b => (st, showGetN false (tipGetN cfg st.magic rev b n))
+        | some b => (st, if cfg.dispatchKnown then showGetN false (tipGetN cfg st.magic rev b n) else "unknown-cfg")
         | none => (st, "bad-op")
       else (st, "bad-op")
     | _, _, _ => (st, "bad-op")
@@ -219,7 +222,7 @@ def step (st : S) (line : String) : S × String :=
     | some k, some rev, some slen, some pos, some n =>
       if slen > maxSlice || !inPos pos || !inPos n then (st, "bad-op")
       else if op == "big.iter" then match st.bigs[k]? with
-        | some b => (st, showIter true (bigIter cfg st.magic rev b (fill 64 slen) pos n))
+        | some b => (st, if cfg.offsetsKnown then showIter true (bigIter cfg st.magic rev b (fill 64 slen) pos n) else "unknown-cfg")
         | none => (st, "bad-op")
       else if op == "tip.iter" then match st.tips[k]? with
         | some b => (st, showIter false (tipIter cfg st.magic rev b (fill 32 slen) pos n))
